@@ -125,9 +125,28 @@ func c19Data(seed int64, nrec int, v6 bool, poisonAt int) (*entities.Message, []
 		}
 		return string(b)
 	}
+	// boundary values now and then: zero, one, the largest
+	u32 := func() uint32 {
+		switch r.IntN(8) {
+		case 0:
+			return 0
+		case 1:
+			return []uint32{1, 0xffffffff}[r.IntN(2)]
+		}
+		return r.Uint32()
+	}
+	u64 := func() uint64 {
+		switch r.IntN(8) {
+		case 0:
+			return 0
+		case 1:
+			return []uint64{1, 0xffffffffffffffff}[r.IntN(2)]
+		}
+		return r.Uint64()
+	}
 	for i := 0; i < nrec; i++ {
-		c := c19Rec{srcPort: uint16(r.Uint32()), dstPort: uint16(r.Uint32()), proto: uint8(r.Uint32()), start: r.Uint32(), end: r.Uint32(),
-			pktTot: r.Uint64(), octTot: r.Uint64(), pktD: uint64(r.IntN(1000)), octD: uint64(r.IntN(100000)),
+		c := c19Rec{srcPort: uint16(u32()), dstPort: uint16(u32()), proto: uint8(u32()), start: u32(), end: u32(),
+			pktTot: u64(), octTot: u64(), pktD: u64() % 1000, octD: u64() % 100000,
 			srcPod: str([]int{0, 5, 60, 300}[r.IntN(4)]), dstPod: str(20), srcNS: str(10), exportTime: et, seq: sq, dom: dom, exportAddr: addr}
 		if i == poisonAt {
 			c.srcPod = "\xff\xfe" + c.srcPod
